@@ -147,6 +147,11 @@ class Effects:
                 src = None
                 if isinstance(r, ast.Name):
                     src = r.id
+                elif isinstance(r, ast.Attribute) and isinstance(
+                        _root(r), ast.Name) and _root(r).id not in (
+                        'self', 'cls', 'np') and _root(r).id in alias:
+                    # an array held by a caller-owned object
+                    src = _root(r).id
                 elif isinstance(r, ast.Subscript) and isinstance(
                         _root(r), ast.Name) and isinstance(r.slice, ast.Slice):
                     src = _root(r).id
